@@ -42,3 +42,64 @@ Definition jit_shrink (okv okh : nat -> bool) (bm : list (Z * nat)) (c : JitMode
   : JitModel.state * JitModel.result * vms :=
   let '(st', r) := JitModel.shrink c st id off ns in
   if ns =? 0 then let '(_, _, s') := jit_release okv okh bm c st s id off kv kh in (st', r, s') else (st', r, s).
+
+(* ---- whole scripts of the joint model (round 6) ----
+   The map from C09 block ids to C15 handles (`bm`) is now part of the model state (it was kept by the OCaml driver), and the
+   hypothesis `valid_ptr` of the release / shrink theorems is decided by `valid_ptrb`: a script operation on a pointer that is not
+   valid is answered InvalidArgument without touching anything (the scripts only name spans they own; the decision procedure makes
+   the run-level theorems unconditional and is evaluated on every compared script). *)
+Definition valid_ptrb (c : JitModel.config) (st : JitModel.state) (id off : Z) : bool :=
+  match JitModel.find_block id (JitModel.blocks st) with
+  | None => true
+  | Some b => existsb (fun sp => fst sp =? off / JitModel.pool_gran c (JitModel.b_pool b)) (JitModel.b_live b)
+  end.
+
+(* JitAllocator::reset(policy): C09's reset decides which blocks stay (soft: the first block of each pool, wiped); the views and the
+   record of every block that does not stay go away (C15's VDel on its handle).  Asks for no memory. *)
+Definition jit_del_block (okv okh : nat -> bool) (bm : list (Z * nat)) (kv kh : nat) (s : vms) (id : Z) : vms :=
+  match find (fun p => fst p =? id) bm with
+  | Some (_, h) => let '(_, s1, _, _) := vm_step okv okh (VDel h) s kv kh in s1
+  | None => s
+  end.
+
+Definition jit_reset (okv okh : nat -> bool) (bm : list (Z * nat)) (c : JitModel.config) (st : JitModel.state) (s : vms) (hard : bool) (kv kh : nat)
+  : JitModel.state * vms :=
+  let st' := JitModel.reset c st hard in
+  let keep := map JitModel.b_id (JitModel.blocks st') in
+  let gone := filter (fun id => negb (existsb (Z.eqb id) keep)) (map JitModel.b_id (JitModel.blocks st)) in
+  (st', fold_left (jit_del_block okv okh bm kv kh) gone s).
+
+Inductive jop := JAlloc (size : Z) | JRelease (id off : Z) | JShrink (id off ns : Z) | JReset (hard : bool) | JQuery (id off : Z).
+
+Record jst := mkjst { j_st : JitModel.state; j_vm : vms; j_bm : list (Z * nat); j_kv : nat; j_kh : nat }.
+
+Definition jst_init (c : JitModel.config) : jst := mkjst (JitModel.init_state c) vms_init [] 0%nat 0%nat.
+
+Definition jit_step (okv okh : nat -> bool) (dual : bool) (c : JitModel.config) (op : jop) (j : jst) : JitModel.result * jst :=
+  match op with
+  | JAlloc size =>
+      let '(st', r, s', kv', kh') := jit_alloc okv okh dual c (j_st j) (j_vm j) size (j_kv j) (j_kh j) in
+      let bm' := if JitModel.nextid st' =? JitModel.nextid (j_st j) then j_bm j
+                 else (JitModel.nextid (j_st j), length (vs_handles (j_vm j))) :: j_bm j in
+      (r, mkjst st' s' bm' kv' kh')
+  | JRelease id off =>
+      if valid_ptrb c (j_st j) id off then
+        let '(st', r, s') := jit_release okv okh (j_bm j) c (j_st j) (j_vm j) id off (j_kv j) (j_kh j) in
+        (r, mkjst st' s' (j_bm j) (j_kv j) (j_kh j))
+      else (JitModel.RRelease JitModel.InvalidArgument 0 false, j)
+  | JShrink id off ns =>
+      if valid_ptrb c (j_st j) id off && (0 <=? ns) then
+        let '(st', r, s') := jit_shrink okv okh (j_bm j) c (j_st j) (j_vm j) id off ns (j_kv j) (j_kh j) in
+        (r, mkjst st' s' (j_bm j) (j_kv j) (j_kh j))
+      else (JitModel.RShrink JitModel.InvalidArgument 0 0, j)
+  | JReset hard =>
+      let '(st', s') := jit_reset okv okh (j_bm j) c (j_st j) (j_vm j) hard (j_kv j) (j_kh j) in
+      (JitModel.RReset, mkjst st' s' (j_bm j) (j_kv j) (j_kh j))
+  | JQuery id off => (JitModel.query c (j_st j) id off, j)       (* JitAllocator::query: C09's look-up, touches nothing *)
+  end.
+
+Fixpoint jit_run (okv okh : nat -> bool) (dual : bool) (c : JitModel.config) (ops : list jop) (j : jst) : list JitModel.result * jst :=
+  match ops with
+  | [] => ([], j)
+  | op :: t => let '(r, j1) := jit_step okv okh dual c op j in let '(rs, j2) := jit_run okv okh dual c t j1 in (r :: rs, j2)
+  end.
